@@ -47,6 +47,7 @@ type eventRec struct {
 }
 
 type crashRun struct {
+	crash2n int
 	base     string
 	s        *session
 	events   []eventRec
@@ -381,6 +382,28 @@ func crashMain(a []string) {
 				s2.exec("bput 7a7a7b x5b")
 				resImg["bcommit"] = s2.exec("bcommit")
 				s2.exec("bdrop")
+				// a SECOND crash (process death, no Close) right after the recovery and these writes: the image is the
+				// directory as the OS sees it now.  Everything acknowledged so far must be there - in particular whatever
+				// recovery cut away logically must not resurface behind the new records (pre-extended mmap files).
+				// (under mmap every Open of an unclean image reads and clears the 512 MiB extension: only images with a cut
+				// tail - the ones recovery truncates - and at most 8 of them per run)
+				if opts["crash2"] != "0" && (!c.mmap || (cut != nil && c.crash2n < 8)) {
+					c.crash2n++
+					w3 := filepath.Join(c.base, "work3")
+					os.RemoveAll(w3)
+					copyDirSparse(filepath.Join(work, "d"), filepath.Join(w3, "d"))
+					if _, err := os.Stat(filepath.Join(work, "d-merge")); err == nil {
+						copyDirSparse(filepath.Join(work, "d-merge"), filepath.Join(w3, "d-merge"))
+					}
+					s3 := newSession(w3)
+					r3 := s3.exec("open d " + readerCfg)
+					resImg["c2open"] = r3
+					if r3 == "ok" {
+						resImg["c2dump"] = s3.exec("dump")
+						s3.exec("close")
+					}
+					os.RemoveAll(w3)
+				}
 				if opts["postmerge"] == "1" {
 					// after recovery: delete the first recovered key, run a complete Merge, restart (adoption).
 					// A merge interrupted earlier must not leak into this one.
